@@ -7,7 +7,7 @@ from . import common
 
 GROUP = "g08"
 PROP_FILE = "C08.v"
-PROP_PARTS = ["C08_handover.v", "C08_converse.v", "C08_ops.v", "C08_addr.v", "C08_once.v", "C08_timed.v", "C08_free.v"]
+PROP_PARTS = ["C08_handover.v", "C08_converse.v", "C08_ops.v", "C08_safety.v", "C08_addr.v", "C08_once.v", "C08_timed.v", "C08_free.v"]
 
 READER_VERDICTS = {
     1: "wf-header-rejected",
